@@ -20,7 +20,7 @@ Method (the one of `AsmProofs.lean` for x86-64): symbolic execution by `simp` wi
 explicit state record whose status is `running`), on a state whose registers and memory words are variables; every
 intermediate `addWithCarry` / `mulLo` / `mulHi` result is named beforehand so the terms stay small; side conditions
 (alignment, no wrap-around, read-over-write address inequalities) are looked up in the context or go to `omega` in a
-context reduced to the one relevant separation hypothesis (`Hide`, `omega_hidden`).  AArch64 specifics: post-/pre-index
+context reduced to the one relevant separation hypothesis (`Hide`, `omega_hidden`).  AArch64 specifics: post- and pre-index
 addressing with write-back (pointer registers become `p + 16#64·k`, normalised by `BitVec.add_assoc`; SP-relative
 addresses `sp − 16·k` by `sub16x…_toNat`), the SP alignment check on every SP-based access, subtraction as
 `AddWithCarry(x, NOT y, C)` with C = NOT borrow (`sbc_spec`), `cset` (`cselAlt`, `cset_toNat`).
